@@ -4,7 +4,7 @@
    every run).  COMMENT instructions are not produced (the correspondence drops them from the Rust
    output).  Register numbers are the INTERNAL ones (`Register::X(n)`); the printer shows X(n) as
    `X{n}` for n < 18 and `X{n+1}` otherwise (X18 is skipped), see [printed_number]. *)
-From Coq Require Import List ZArith NArith String Bool.
+From Coq Require Import List ZArith NArith String Ascii Bool.
 From SCC Require Import Base.Sexp Lang.AxSyn Model.ParMoves Model.Backend Generated.Constants.
 Import ListNotations.
 Open Scope string_scope.
@@ -104,19 +104,22 @@ Definition r_rem (t s1 s2 : areg) : list acode :=
     else [SDIV t s1 s2; MSUB t t s2 s1]
   else [SDIV TEMP2 s1 s2; MSUB t TEMP2 s2 s1].
 
+(* the first source may be the scratch register itself (jump-table dispatch adds the tag to TEMP) *)
+Definition scratch_for (source_register_1 : areg) : areg :=
+  if areg_eqb source_register_1 TEMP then TEMP2 else TEMP.
 Definition a_op (f : areg -> areg -> areg -> list acode) (t s1 s2 : atemp) : list acode :=
   match t with
   | AR tr =>
       match s1, s2 with
       | AR r1, AR r2 => f tr r1 r2
-      | AR r1, AS p2 => [LDR TEMP SP (stack_offset p2)] ++ f tr r1 TEMP
+      | AR r1, AS p2 => let scratch := scratch_for r1 in [LDR scratch SP (stack_offset p2)] ++ f tr r1 scratch
       | AS p1, AR r2 => [LDR TEMP SP (stack_offset p1)] ++ f tr TEMP r2
       | AS p1, AS p2 => [LDR TEMP SP (stack_offset p1); LDR TEMP2 SP (stack_offset p2)] ++ f tr TEMP TEMP2
       end
   | AS tp =>
       match s1, s2 with
       | AR r1, AR r2 => f TEMP r1 r2
-      | AR r1, AS p2 => [LDR TEMP SP (stack_offset p2)] ++ f TEMP r1 TEMP
+      | AR r1, AS p2 => let scratch := scratch_for r1 in [LDR scratch SP (stack_offset p2)] ++ f TEMP r1 scratch
       | AS p1, AR r2 => [LDR TEMP SP (stack_offset p1)] ++ f TEMP TEMP r2
       | AS p1, AS p2 => [LDR TEMP SP (stack_offset p1); LDR TEMP2 SP (stack_offset p2)] ++ f TEMP TEMP TEMP2
       end ++ [STR TEMP SP (stack_offset tp)]
@@ -200,7 +203,7 @@ Definition caller_save_registers_info (context : ctx) : N * list N :=
                           end)%N
                        (combine (nseq 0 (N.of_nat (List.length taken))) taken) in
   (first_backup_register,
-   [0; 1]%N ++ (if N.ltb REGISTER_NUM first_free_register then [REGISTER_NUM - 1]%N else []) ++ regs).
+   [0; 1]%N ++ (if N.leb REGISTER_NUM first_free_register then [REGISTER_NUM - 1]%N else []) ++ regs).
 Definition backup_used (first_backup_register : N) (regs : list N) : nat :=
   Nat.min (List.length regs) (N.to_nat ((REGISTER_NUM - 1) - first_backup_register)).
 Definition push_count (fb : N) (regs : list N) : nat :=
@@ -476,8 +479,17 @@ Definition a_load (to_load existing : ctx) (lc : N) : res (list acode * N) :=
       end
   end.
 
-Definition a64_backend : backend acode atemp := {|
+(* statement-boundary marks (Backend.b_mark): none in the real back end; the marked instance emits a
+   label "#m<kinds>" per statement, one character per environment position (e = integer, p = object) *)
+Definition kinds_string (c : ctx) : string :=
+  fold_right (fun b acc => String (match bchi b with Ext => "e"%char | _ => "p"%char end) acc) "" c.
+Definition a64_mark (c : ctx) : list acode := [LAB ("#m" +++ kinds_string c)].
+Definition is_mark (c : acode) : bool :=
+  match c with LAB (String "#"%char (String "m"%char _)) => true | _ => false end.
+
+Definition a64_backend_with (mark : ctx -> list acode) : backend acode atemp := {|
   b_label := LAB;
+  b_mark := mark;
   b_jump := a_jump;
   b_jump_label := fun l => [B l];
   b_jump_label_fixed := fun l => [B l];
@@ -502,6 +514,7 @@ Definition a64_backend : backend acode atemp := {|
   b_temporary_from_position := temporary_from_position;
   b_tcompare := atemp_compare;
 |}.
+Definition a64_backend : backend acode atemp := a64_backend_with (fun _ => []).
 
 (* ---------- into_routine.rs ---------- *)
 (* the Rust code spells the seven cases out: argument n (in X(n)) goes to X(2n+3), highest first *)
@@ -531,8 +544,10 @@ Definition into_aarch64_routine (instructions : list acode) (n : nat) : res (lis
   dor s <- setup n;
   Ok (preamble ++ s ++ instructions ++ cleanup).
 
-Definition a64_compile (p : prog) (lc : N) : res (list acode * nat * N) :=
-  dor c <- compile a64_backend p lc;
+Definition a64_compile_with (mark : ctx -> list acode) (p : prog) (lc : N) : res (list acode * nat * N) :=
+  dor c <- compile (a64_backend_with mark) p lc;
   let '(is, n, lc') := c in
   dor r <- into_aarch64_routine is n;
   Ok (r, n, lc').
+Definition a64_compile := a64_compile_with (fun _ => []).
+Definition a64_compile_marked := a64_compile_with a64_mark.
